@@ -75,5 +75,47 @@ def run(ctx):
         if not found and ctx.states - before != sum(int(e['tree']) for e in pick):
             raise vlib.Infra('TLC / Go enumerator state counts differ on the gadget subset')
     ctx.extra['tlc_subset_cases'] = len(pick)
+    wide(ctx, quick)
     ctx.sample({'program': prog_str(behs[0]['prog']), 'probe': behs[0]['probes'][3]})
     ctx.sample({'program': prog_str(behs[-1]['prog'])})
+
+
+def wide_desc(c):
+    if c['g'] == 'cmp':
+        return 'BoundedComparator(%d).%s' % (c['U'], c['m'])
+    if c['g'] == 'bitpart':
+        return 'bitslice.Partition(split=%d, WithNbDigits(%d))' % (c['split'], c['digits'])
+    if c['g'] == 'selpart':
+        return 'selector.Partition(n=%d, rightSide=%s)' % (c['n'], c['right'])
+    if c['g'] == 'slice':
+        return 'selector.Slice(n=%d)' % c['n']
+    return 'selector.Mux(1 input)'
+
+
+def wide(ctx, quick):
+    """GadgetsWide.tla: bounded comparator contract over a toy prime (TLC) + cases replayed on the real gadgets."""
+    import re
+    r = ctx.tlc('GadgetsWide', 'GadgetsWide.cfg', workers=1, timeout=1800)
+    if not quick:
+        ctx.tlc('GadgetsWide', 'GadgetsWide_47.cfg', workers=1, timeout=1800)
+    cases = r.beh
+    if len(cases) < 2000:
+        raise vlib.Infra('GadgetsWide produced %d cases' % len(cases))
+    for i, c in enumerate(cases):
+        c['id'] = i
+    for curve in (['bn254'] if quick else ['bn254', 'bls12-377', 'bw6-761']):
+        res = ctx.harness(['gwreplay', '--curve', curve, '--par', '16'], cases, timeout=7200)
+        if len(res) != len(cases):
+            raise vlib.Infra('short wide-gadget replay')
+        for rr in res:
+            c = cases[rr['id']]
+            ctx.case(key='wide %s %s %s %s' % (curve, wide_desc(c), c['in'], c['exp']), nontrivial=c['exp'] != 'either')
+            ctx.traces += rr['runs']
+            for p in rr['problems'] or []:
+                if p.startswith('INFRA'):
+                    raise vlib.Infra(p)
+                head = re.sub(r'\d{4,}', 'N', p.split(':')[0])
+                ctx.report('wide gadget %s: %s' % (wide_desc(c), head), {'curve': curve, 'case': c, 'problem': p})
+    ctx.extra['wide_cases'] = len(cases)
+    ctx.extra['wide_hint_perturbations'] = sum(rr['tampered'] for rr in res)
+    ctx.sample({'wide_case': cases[7]})
